@@ -3,6 +3,7 @@
   summary of what one transaction (`handleTx`) does to it.
 -/
 import RigoProofs.C11Sum
+import RigoProofs.TxRecv
 
 namespace Rigo
 open Delegatee
@@ -391,8 +392,8 @@ theorem runTrx_core {s s2 : St} {e : Bool} {ht : Int} {tx : TxIn} {rc : Account}
     cases hr
 
 /-- CheckTx never touches the consensus view, the history, or the refund log -/
-theorem handleTx_false_core (s : St) (ht : Int) (tx : TxIn) : (handleTx s false ht tx).1.core = s.core := by
-  unfold handleTx
+theorem handleTxOld_false_core (s : St) (ht : Int) (tx : TxIn) : (handleTxOld s false ht tx).1.core = s.core := by
+  unfold handleTxOld
   dsimp only
   split
   · rfl
@@ -419,18 +420,18 @@ theorem handleTx_false_core (s : St) (ht : Int) (tx : TxIn) : (handleTx s false 
 
 /-- what a delivered transaction does to the core: nothing, unless it is a *successful* staking or
     unstaking transaction, whose effect is described exactly -/
-theorem handleTx_core (s : St) (ht : Int) (tx : TxIn) :
-    ((handleTx s true ht tx).1.core = s.core ∧
-      ((handleTx s true ht tx).2.code = 0 → tx.type ≠ TRX_STAKING ∧ tx.type ≠ TRX_UNSTAKING)) ∨
-    ((handleTx s true ht tx).2.code = 0 ∧ tx.type = TRX_STAKING ∧ tx.sigOk = true ∧ byteLen tx.to = 20 ∧
+theorem handleTxOld_core (s : St) (ht : Int) (tx : TxIn) :
+    ((handleTxOld s true ht tx).1.core = s.core ∧
+      ((handleTxOld s true ht tx).2.code = 0 → tx.type ≠ TRX_STAKING ∧ tx.type ≠ TRX_UNSTAKING)) ∨
+    ((handleTxOld s true ht tx).2.code = 0 ∧ tx.type = TRX_STAKING ∧ tx.sigOk = true ∧ byteLen tx.to = 20 ∧
       ∃ d power, StakeTarget s.core tx d ∧ amountToPower tx.amount = .ok power ∧
-        (handleTx s true ht tx).1.core =
+        (handleTxOld s true ht tx).1.core =
           { s.core with dfin := s.core.dfin.insert (ledgerKey d.addr) (d.addStake (newStake tx power ht)) }) ∨
-    ((handleTx s true ht tx).2.code = 0 ∧ tx.type = TRX_UNSTAKING ∧ tx.sigOk = true ∧
+    ((handleTxOld s true ht tx).2.code = 0 ∧ tx.type = TRX_UNSTAKING ∧ tx.sigOk = true ∧
       ∃ d hash st, tx.payload = .unstaking hash ∧ s.core.dfin[ledgerKey tx.to]? = some d ∧
         d.findStake hash = some st ∧ tx.from_ = st.owner ∧
-        (handleTx s true ht tx).1.core = unstakeCore s.core d st hash ht) := by
-  unfold handleTx
+        (handleTxOld s true ht tx).1.core = unstakeCore s.core d st hash ht) := by
+  unfold handleTxOld
   dsimp only
   split
   · left; simp
@@ -463,5 +464,28 @@ theorem handleTx_core (s : St) (ht : Int) (tx : TxIn) :
           rw [h1] at hd hcore
           exact ⟨rfl, hty, hsig, d, hash, st, hp, hd, hst, hown, by simp only [hc, hcore]⟩
         · left; exact ⟨by simp [hc, h1], fun _ => ⟨hn1, hn2⟩⟩
+
+/-- CheckTx never touches the consensus view, the history, or the refund log -/
+theorem handleTx_false_core (s : St) (ht : Int) (tx : TxIn) : (handleTx s false ht tx).1.core = s.core := by
+  by_cases hl : byteLen tx.to = 20
+  · rw [handleTx_goodlen hl]; exact handleTxOld_false_core s ht tx
+  · rw [handleTx_badlen_fst hl]
+
+/-- what a delivered transaction does to the core: nothing, unless it is a *successful* staking or
+    unstaking transaction, whose effect is described exactly -/
+theorem handleTx_core (s : St) (ht : Int) (tx : TxIn) :
+    ((handleTx s true ht tx).1.core = s.core ∧
+      ((handleTx s true ht tx).2.code = 0 → tx.type ≠ TRX_STAKING ∧ tx.type ≠ TRX_UNSTAKING)) ∨
+    ((handleTx s true ht tx).2.code = 0 ∧ tx.type = TRX_STAKING ∧ tx.sigOk = true ∧ byteLen tx.to = 20 ∧
+      ∃ d power, StakeTarget s.core tx d ∧ amountToPower tx.amount = .ok power ∧
+        (handleTx s true ht tx).1.core =
+          { s.core with dfin := s.core.dfin.insert (ledgerKey d.addr) (d.addStake (newStake tx power ht)) }) ∨
+    ((handleTx s true ht tx).2.code = 0 ∧ tx.type = TRX_UNSTAKING ∧ tx.sigOk = true ∧
+      ∃ d hash st, tx.payload = .unstaking hash ∧ s.core.dfin[ledgerKey tx.to]? = some d ∧
+        d.findStake hash = some st ∧ tx.from_ = st.owner ∧
+        (handleTx s true ht tx).1.core = unstakeCore s.core d st hash ht) := by
+  by_cases hl : byteLen tx.to = 20
+  · rw [handleTx_goodlen hl]; exact handleTxOld_core s ht tx
+  · exact Or.inl ⟨by rw [handleTx_badlen_fst hl], fun hc => absurd hc (handleTx_badlen_code hl)⟩
 
 end Rigo
